@@ -111,6 +111,49 @@ def protocol_level_cases(res, tier):
     finally:
         shutil.rmtree(tmp, ignore_errors=True)
 
+def handler_history_cases(res):
+    """One long-lived FileUploadHandler (as a running server has) receives the SAME request paths again after the layout of the upload
+    directory has changed between the requests (a directory replaced by a symbolic link leading outside): every request is judged
+    against the layout at the time it is made."""
+    import nauyaca.server.handler as hm
+    from nauyaca.protocol.request import TitanRequest
+    tmp = os.path.realpath(scratch_dir("nv-c14h-"))
+    try:
+        up, outside = os.path.join(tmp, "up"), os.path.join(tmp, "outside")
+        os.makedirs(os.path.join(up, "docs")); os.makedirs(outside)
+        open(os.path.join(outside, "old.txt"), "wb").write(b"outside file that must survive")
+        open(os.path.join(outside, "note.txt"), "wb").write(b"outside note that must not be replaced")
+        open(os.path.join(up, "docs", "keep.txt"), "wb").write(b"kept")
+        h = hm.FileUploadHandler(up, enable_delete=True)
+        def req(path, content):
+            r = TitanRequest.from_line("titan://h%s;size=%d;mime=text/plain" % (path, len(content))); r.content = content; return r
+        def send(path, content):
+            try: return asyncio.run(h.handle_upload(req(path, content))).status
+            except Exception as e: return "raise:" + type(e).__name__
+        steps = []
+        # while `docs` is an ordinary directory: an upload, a deletion of something that is not there, an overwrite
+        steps.append(("docs is a directory", "/docs/note.txt", b"first", send("/docs/note.txt", b"first")))
+        steps.append(("docs is a directory", "/docs/old.txt", b"", send("/docs/old.txt", b"")))
+        steps.append(("docs is a directory", "/docs/keep.txt", b"again", send("/docs/keep.txt", b"again")))
+        # the layout changes between requests: `docs` becomes a link to a directory outside the upload directory
+        shutil.move(os.path.join(up, "docs"), os.path.join(tmp, "docs-moved"))
+        os.symlink(outside, os.path.join(up, "docs"))
+        before = fstree.snapshot(outside)
+        later = [("docs is a link to an outside directory", p_, c_, send(p_, c_)) for p_, c_ in
+                 (("/docs/note.txt", b"second"), ("/docs/old.txt", b""), ("/docs/keep.txt", b"third"), ("/docs/note.txt", b"second"))]
+        after = fstree.snapshot(outside)
+        res.evaluations += len(steps) + len(later); res.count("handler-history", len(steps) + len(later)); res.nontriv(("handler-history", 1))
+        bad = [st_ for st_ in later if st_[3] == 20]
+        if steps[0][3] != 20 or bad or before != after:
+            res.violations.append({"clause": "a request is judged against the layout of the upload directory at the time it is made (one long-lived handler, the same paths before and after a change of layout)",
+                                   "signature": "C14:handler-history",
+                                   "case": {"history": [[a, b, c.decode(), str(d)] for a, b, c, d in steps + later]},
+                                   "trace": {"answered_20_through_the_outside_link": [[b, str(d)] for a, b, c, d in bad],
+                                             "outside_directory_before": [[e[0][-1], e[1][0]] for e in before],
+                                             "outside_directory_after": [[e[0][-1], e[1][0], (e[1][1][:40].decode("latin-1") if len(e[1]) > 1 and isinstance(e[1][1], bytes) else "")] for e in after]}})
+    finally:
+        shutil.rmtree(tmp, ignore_errors=True)
+
 def run(tier, seed):
     setup_impl()
     import nauyaca.server.handler as hm
@@ -251,6 +294,7 @@ def run(tier, seed):
     finally:
         hm.secrets = real_secrets
         shutil.rmtree(tmp, ignore_errors=True); shutil.rmtree(os.path.realpath(tmp) + "-cfg", ignore_errors=True)
+    handler_history_cases(res)
     out = run_model_parallel(mcases)
     for (nodes, cfg, mreq, fault, obs, before, after, status, target, line), mo in zip(meta, out):
         m = dec(mo)
